@@ -16,18 +16,19 @@ import (
 // C11 — remote delivery over a healthy link: exactly once, intact, in order (DESIGN §4 C11).
 
 type vfStreamCase struct {
-	Plan    string // asis | 1byte | splits | coalesce
-	Burst   int
-	Senders int
-	Sizes   []int
-	Back    int  // messages in the opposite direction (B -> A) at the same time
-	Asks    int  // concurrent Asks A -> B
-	Gap     time.Duration // pause between messages (0: burst); > 0 makes a steady stream
-	StopAfter bool        // the sending system is stopped right after the last Tell returned: everything Told before must still arrive
+	Plan          string // asis | 1byte | splits | coalesce
+	Burst         int
+	Senders       int
+	Sizes         []int
+	Back          int           // messages in the opposite direction (B -> A) at the same time
+	Asks          int           // concurrent Asks A -> B
+	Gap           time.Duration // pause between messages (0: burst); > 0 makes a steady stream
+	StopAfter     bool          // the sending system is stopped right after the last Tell returned: everything Told before must still arrive
+	FirstContacts int           // > 0: that many distinct addresses of B are contacted for the first time by 8 goroutines at once
 }
 
 func (c vfStreamCase) String() string {
-	return fmt.Sprintf("plan=%s burst=%d senders=%d sizes=%v back=%d asks=%d gap=%v stop-after-last-tell=%v", c.Plan, c.Burst, c.Senders, c.Sizes, c.Back, c.Asks, c.Gap, c.StopAfter)
+	return fmt.Sprintf("plan=%s burst=%d senders=%d sizes=%v back=%d asks=%d gap=%v stop-after-last-tell=%v first-contacts=%d", c.Plan, c.Burst, c.Senders, c.Sizes, c.Back, c.Asks, c.Gap, c.StopAfter, c.FirstContacts)
 }
 
 // vfCheckStream: the per-sender sequence monitor. lostOnlyIfLaterSeen: a gap counts as loss only if a later message
@@ -91,7 +92,79 @@ func clipInts(x []int, n int) []int {
 	return x
 }
 
+// vfRunFirstContact: the first traffic to an address comes from several goroutines at the same moment (gate-released),
+// many times over: every round uses a fresh sending system, whose first contact with B it is. Per-sender order and
+// exactly-once must hold from the very first message on, and one outbound connection per address is opened.
+func vfRunFirstContact(c vfStreamCase, seed uint64) (viols []vfViol, info string, inconclusive string) {
+	add := func(kind, key, f string, a ...any) {
+		for _, v := range viols {
+			if v.Kind == kind {
+				return
+			}
+		}
+		viols = append(viols, vfViol{kind, key, fmt.Sprintf(f, a...)})
+	}
+	stall := vfStartStall()
+	addrB := vfFreeAddr()
+	b, err := vfStartNode(addrB, addrB)
+	if err != nil {
+		return nil, "", "start B: " + err.Error()
+	}
+	const g, per = 8, 4
+	sent := map[int]int{}
+	estab := 0
+	for k := 0; k < c.FirstContacts; k++ {
+		addrA := vfFreeAddr()
+		a, err := vfStartNode(addrA, addrA)
+		if err != nil {
+			_ = b.stop()
+			return nil, "", "start A: " + err.Error()
+		}
+		ref, _ := a.sys.CreateRef(addrB, "/sink")
+		gate := make(chan struct{})
+		var wg sync.WaitGroup
+		for s := 0; s < g; s++ {
+			id := k*10 + s + 1
+			sent[id] = per
+			wg.Add(1)
+			go func(id int) {
+				defer wg.Done()
+				<-gate
+				for q := 1; q <= per; q++ {
+					a.sys.Tell(ref, vfNewNetMsg(id, q, 16, false))
+				}
+			}(id)
+		}
+		close(gate)
+		wg.Wait()
+		vfWaitCount(b.sink, int64((k+1)*g*per), 2*time.Second)
+		a.obs.mu.Lock()
+		estab += a.obs.estab
+		a.obs.mu.Unlock()
+		if err := a.stop(); err != nil {
+			add("c11-stop", "Stop", "sending system of round %d: %v", k, err)
+		}
+	}
+	total := int64(c.FirstContacts * g * per)
+	ok := vfWaitCount(b.sink, total, 5*time.Second)
+	maxStall := stall.end()
+	vfCheckStream(b.sink.snapshot(), sent, !ok, add)
+	// (more than one connection per address is only recorded, not judged: the property speaks of order and exactly-once)
+	info = fmt.Sprintf("received=%d/%d first_contacts=%d connections_established=%d max_stall=%v", b.sink.n.Load(), total, c.FirstContacts, estab, maxStall)
+	if maxStall > time.Second && len(viols) > 0 {
+		inconclusive = fmt.Sprintf("scheduler stall of %v during the run: %v", maxStall, viols[0].Detail)
+		viols = nil
+	}
+	if err := b.stop(); err != nil {
+		add("c11-stop", "Stop", "system B: %v", err)
+	}
+	return
+}
+
 func vfRunStream(c vfStreamCase, seed uint64) (viols []vfViol, info string, inconclusive string) {
+	if c.FirstContacts > 0 {
+		return vfRunFirstContact(c, seed)
+	}
 	add := func(kind, key, f string, a ...any) {
 		for _, v := range viols {
 			if v.Kind == kind {
@@ -256,6 +329,9 @@ func vfStreamCases(thorough bool) []vfStreamCase {
 		vfStreamCase{Plan: "asis", Burst: 1, Senders: 1, Sizes: []int{100}, StopAfter: true},
 		vfStreamCase{Plan: "asis", Burst: 500, Senders: 2, Sizes: []int{0, 100, 4096}, StopAfter: true},
 		vfStreamCase{Plan: "splits", Burst: 3000, Senders: 4, Sizes: []int{7, 64, 300}, StopAfter: true},
+		// concurrent first contact: 8 goroutines start talking to a new address at the same moment, 150 addresses
+		vfStreamCase{Plan: "asis", FirstContacts: 150, Burst: 150 * 32, Senders: 8, Sizes: []int{16}},
+		vfStreamCase{Plan: "asis", FirstContacts: 150, Burst: 150*32 + 1, Senders: 8, Sizes: []int{16}},
 	)
 	if thorough {
 		for _, plan := range []string{"asis", "splits", "coalesce"} {
